@@ -178,6 +178,7 @@ inductive ApiKind (F : Type)
   | echo (field : String)
   | sum
   | coin (v : F) (cur : String)
+  | when (field : String) (word : String) (v : F)
   deriving Repr, Inhabited
 
 /-- the rule functions of `RULE_FUNCTIONS` plus `small_date` and API rules -/
